@@ -1,5 +1,5 @@
 #!/usr/bin/env python3
-"""Rounds 6 and 7 (one seed per property, ids <PROP>-11 / <PROP>-12; scratch in /tmp/mut6, /tmp/mut7): copy /tmp/mut6/<PROP>/OUT into /verif/seeded/<PROP>-11/
+"""Rounds 6 and 7 (one seed per property, ids <PROP>-11 / -12 / -13; scratch in /tmp/mut6, /tmp/mut7, /tmp/mut8): copy /tmp/mut6/<PROP>/OUT into /verif/seeded/<PROP>-11/
 with meta.json; check results are read from /tmp/mt6_<PROP>/results.jsonl (tools/seedrun.py with SEEDRUN_MT)."""
 import json, os, shutil, glob
 NEEDS = {
@@ -16,10 +16,15 @@ NEEDS = {
  "C07-12": "Iter::advance_back_by empties `left` before computing how much of `right` to keep: needs wrapped contents and range(a..b) whose end falls inside the first segment; range() then disagrees with range_mut()/to_vec or panics with a subtraction overflow",
  "C09-12": "Drain::as_mut_slices (used by Drain::drop) ends at range.end instead of iter.end: needs at least one next_back() and then an early drop with items still un-yielded; the back-yielded elements are destroyed a second time",
  "C16-12": "embedded-io(-async) BufRead::consume clamps amt to the front segment length instead of len(): needs wrapped contents with a non-empty back segment and consume(amt) with amt larger than the front segment; diverges from std::io::BufRead::consume",
+ "C01-13": "fill_spare_with writes straight into the two spare segments and fills 0..start only when end > start: needs an empty buffer whose front slot is not 0 (push k, pop_front k; or truncate_front(0)); fill_with/fill_spare_with then fill only start..N and call the closure too few times",
+ "C02-13": "try_push_back tests start + size >= N instead of size >= N and writes items[start + size] without wrapping: needs a buffer that is not full with start > 0 and start + size >= N; returns a spurious Err(item)",
+ "C11-13": "swap_remove_back tests `index + 1 == size` before the bounds check: needs index == usize::MAX; overflow panic in debug builds instead of None (release wraps and returns None)",
+ "C17-13": "make_contiguous stashes the wrapped head in a temporary Vec under cfg(feature = \"alloc\"): needs wrapped contents that are not full, a non-zero-sized element and the alloc or std feature; one heap allocation inside make_contiguous",
+ "C18-13": "Drain::as_mut_slices returns (left, right) swapped in the cfg(not(feature = \"unstable\")) block only: needs a drain dropped with un-yielded elements whose range crosses the physical wrap point; the remainder is destroyed in a different order on stable than with `unstable`",
 }
 for sid, needs in sorted(NEEDS.items()):
     prop, k = sid.split("-")
-    rnd = {"11": "6", "12": "7"}[k]
+    rnd = {"11": "6", "12": "7", "13": "8"}[k]
     d = f"/tmp/mut{rnd}/{prop}/OUT"
     if not os.path.isdir(d):
         continue   # already adopted, scratch removed
